@@ -2,12 +2,14 @@ package c12
 
 import (
 	"fmt"
+	"math/bits"
 	"sort"
 	"strings"
 	"sync"
 	"unicode"
 
 	"github.com/MichaelMure/git-bug/cache"
+	"github.com/MichaelMure/git-bug/entities/common"
 	"github.com/MichaelMure/git-bug/entity"
 	"github.com/MichaelMure/git-bug/query"
 
@@ -41,7 +43,7 @@ func evalCatalogue(p *population) []clause {
 	}
 	out = append(out, mk("nolabel", "", false))
 	out = append(out, mkMeta("github-id", "42", false), mkMeta("github-id", "43", false), mkMeta("origin", "two words", false), mkMeta("origin", "absent", false), mkMeta("origin", "it's:here", false))
-	for _, v := range []string{"zebra", "quokka", "okapi", "absentword"} {
+	for _, v := range []string{"zebra", "quokka", "okapi", "absentword", "ubiquitous", "frequent"} {
 		out = append(out, mk("search", v, false))
 	}
 	return append(out, sortClauses()...)
@@ -187,6 +189,19 @@ func kindsOf(cat []clause, seq []int, only func(kind string) bool) string {
 	return strings.Join(l, "+")
 }
 
+// evalKinds names the filtering clause kinds of a query for the violation signature; a search
+// term that more than ten bugs of the population contain is named apart (bleve's default result
+// page holds ten hits).
+func (ctx *evalCtx) evalKinds(cat []clause, seq []int) string {
+	k := kindsOf(cat, seq, func(kind string) bool { return kind != "sort" })
+	for _, ci := range seq {
+		if cat[ci].Kind == "search" && bits.OnesCount32(ctx.masks[ci]) > 10 {
+			return strings.Replace(k, "search", "search:more-than-ten-hits", 1)
+		}
+	}
+	return k
+}
+
 func (ctx *evalCtx) names(mask uint32) []string {
 	var out []string
 	for i := range ctx.bugs {
@@ -219,7 +234,6 @@ func checkSequence(cat []clause, seq []int, ctx *evalCtx) verdict {
 	want, wantErr := denote(cs)
 	q, err, pan := safeParse(s)
 	v := verdict{Parsed: true}
-	notSort := func(k string) bool { return k != "sort" }
 	switch {
 	case pan != nil:
 		return verdict{Oracle: "never-panic", What: "parse-panic", Detail: fmt.Sprintf("query.Parse(%q) panicked: %v", s, pan)}
@@ -247,29 +261,29 @@ func checkSequence(cat []clause, seq []int, ctx *evalCtx) verdict {
 	v.Evaluated = true
 	where := fmt.Sprintf("population %q, %s, query %q", ctx.p.Spec.Name, ctx.stage, s)
 	if pan != nil {
-		return verdict{Oracle: "evaluation", What: "panic", Kinds: kindsOf(cat, seq, notSort), Detail: fmt.Sprintf("%s: Query panicked: %v", where, pan)}
+		return verdict{Oracle: "evaluation", What: "panic", Kinds: ctx.evalKinds(cat, seq), Detail: fmt.Sprintf("%s: Query panicked: %v", where, pan)}
 	}
 	if err != nil {
-		return verdict{Oracle: "evaluation", What: "error", Kinds: kindsOf(cat, seq, notSort), Detail: fmt.Sprintf("%s: Query failed: %v", where, err)}
+		return verdict{Oracle: "evaluation", What: "error", Kinds: ctx.evalKinds(cat, seq), Detail: fmt.Sprintf("%s: Query failed: %v", where, err)}
 	}
 	var got uint32
 	for _, id := range ids {
 		i, ok := ctx.index[string(id)]
 		if !ok {
-			return verdict{Oracle: "evaluation", What: "unknown-id", Kinds: kindsOf(cat, seq, notSort), Detail: fmt.Sprintf("%s: result contains %s which is no bug of the repository", where, id)}
+			return verdict{Oracle: "evaluation", What: "unknown-id", Kinds: ctx.evalKinds(cat, seq), Detail: fmt.Sprintf("%s: result contains %s which is no bug of the repository", where, id)}
 		}
 		if got&(1<<i) != 0 {
-			return verdict{Oracle: "evaluation", What: "listed-twice", Kinds: kindsOf(cat, seq, notSort), Detail: fmt.Sprintf("%s: %s is listed twice", where, ctx.names(1 << i)[0])}
+			return verdict{Oracle: "evaluation", What: "listed-twice", Kinds: ctx.evalKinds(cat, seq), Detail: fmt.Sprintf("%s: %s is listed twice", where, ctx.names(1 << i)[0])}
 		}
 		got |= 1 << i
 	}
 	lo, hi := ctx.expected(cat, seq)
 	if got&^hi != 0 {
-		return verdict{Oracle: "evaluation", What: "returns-non-matching", Kinds: kindsOf(cat, seq, notSort),
+		return verdict{Oracle: "evaluation", What: "returns-non-matching", Kinds: ctx.evalKinds(cat, seq),
 			Detail: fmt.Sprintf("%s: returned %v; satisfying bugs are %v; %v must not be there", where, ctx.names(got), ctx.names(hi), ctx.names(got&^hi))}
 	}
 	if lo&^got != 0 {
-		return verdict{Oracle: "evaluation", What: "misses-matching", Kinds: kindsOf(cat, seq, notSort),
+		return verdict{Oracle: "evaluation", What: "misses-matching", Kinds: ctx.evalKinds(cat, seq),
 			Detail: fmt.Sprintf("%s: returned %v; satisfying bugs are %v; %v missing", where, ctx.names(got), ctx.names(lo), ctx.names(lo&^got))}
 	}
 	sk := sortKeyOf(cs)
@@ -447,4 +461,106 @@ func (ctx *evalCtx) describe() []string {
 			ctx.names(1 << i)[0], b.Id[:7], st, b.Title, b.Labels, b.Author.Name, b.Author.Login, ns(b.Actors), ns(b.Participants), b.CreateMeta, b.Texts))
 	}
 	return out
+}
+
+// ---- repeated evaluation of one parsed Query object ----
+
+// phraseClauses are quoted multi-word search terms (phrases that occur in the "filters"
+// population, and one that occurs nowhere).
+func phraseClauses() []clause {
+	return []clause{mk("search", "zebra sighting", false), mk("search", "second zebra", false), mk("search", "two words", false)}
+}
+
+func copyQuery(q *query.Query) *query.Query {
+	c := *q
+	c.Search = append(query.Search(nil), q.Search...)
+	c.Status = append([]common.Status(nil), q.Status...)
+	c.Author = append([]string(nil), q.Author...)
+	c.Metadata = append([]query.StringPair(nil), q.Metadata...)
+	c.Actor = append([]string(nil), q.Actor...)
+	c.Participant = append([]string(nil), q.Participant...)
+	c.Label = append([]string(nil), q.Label...)
+	c.Title = append([]string(nil), q.Title...)
+	return &c
+}
+
+// checkRepeat parses a query once and evaluates THE SAME Query object three times: evaluating
+// must not change the query it is given, and must give the same answer every time (the result
+// of a phrase search itself is not compared with the reference, only with itself).
+func checkRepeat(cs []clause, ctx *evalCtx) (findings []verdict, evals int) {
+	s := renderQuery(cs)
+	q, err, pan := safeParse(s)
+	if pan != nil || err != nil || q == nil {
+		return nil, 0 // the round trip part reports that
+	}
+	before := copyQuery(q)
+	where := fmt.Sprintf("population %q, %s, query %q", ctx.p.Spec.Name, ctx.stage, s)
+	render := func(ids []entity.Id, err error, pan any) string {
+		if pan != nil {
+			return fmt.Sprintf("panic: %v", pan)
+		}
+		if err != nil {
+			return "error: " + err.Error()
+		}
+		var l []string
+		for _, id := range ids {
+			if i, ok := ctx.index[string(id)]; ok {
+				l = append(l, ctx.names(1 << i)[0])
+			} else {
+				l = append(l, string(id))
+			}
+		}
+		return fmt.Sprintf("%v", l)
+	}
+	var first string
+	modified, differs := false, false
+	for n := 1; n <= 3; n++ {
+		ids, err, pan := safeQuery(ctx.p.cache, q)
+		evals++
+		got := render(ids, err, pan)
+		if n == 1 {
+			first = got
+		} else if got != first && !differs {
+			differs = true
+			findings = append(findings, verdict{Oracle: "repeat-evaluation", What: "result-differs-on-re-evaluation",
+				Detail: fmt.Sprintf("%s: evaluation 1 of the parsed Query object gave %s, evaluation %d of the same object gave %s", where, first, n, got)})
+		}
+		if ok, diff := sameQuery(q, before); !ok && !modified {
+			modified = true
+			findings = append(findings, verdict{Oracle: "repeat-evaluation", What: "query-object-modified",
+				Detail: fmt.Sprintf("%s: after evaluation %d the caller's Query object is no longer what was parsed: %s (now / as parsed)", where, n, diff)})
+		}
+	}
+	return findings, evals
+}
+
+// runRepeat: every phrase alone, and before / after every clause of the stage's catalogue.
+func runRepeat(col *collector, cat []clause, ctx *evalCtx) partResult {
+	r := partResult{Outcomes: map[string]int{}}
+	var queries [][]clause
+	for _, ph := range phraseClauses() {
+		queries = append(queries, []clause{ph})
+		for _, c := range cat {
+			queries = append(queries, []clause{ph, c}, []clause{c, ph})
+		}
+	}
+	for _, cs := range queries {
+		fs, evals := checkRepeat(cs, ctx)
+		r.Inputs++
+		r.Calls += evals
+		if len(fs) == 0 {
+			r.Outcomes["same answer three times, query untouched"]++
+		}
+		texts := make([]string, len(cs))
+		for i, c := range cs {
+			texts[i] = c.Text
+		}
+		for _, v := range fs {
+			col.add(finding{v.Oracle, v.What, v.Detail, map[string]any{"part": "eval-repeat", "population": ctx.p.Spec.Name, "stage": ctx.stage, "clauses": texts}})
+			r.Outcomes["VIOLATION "+v.What]++
+		}
+	}
+	r.Extra = map[string]any{"phrases": len(phraseClauses()), "evaluations_per_query": 3}
+	r.Samples = []any{map[string]any{"part": "eval-repeat", "query": renderQuery(queries[1]), "evaluations_of_the_same_object": 3}}
+	return r
 }
